@@ -50,7 +50,7 @@ Definition ex_u (k : string) : list string :=
 (* X (non-empty) vanishes -> one entry; Y survives -> none; Z vanishes but is empty -> none *)
 Example C03_lost_nonvacuous :
   snd (regen_file "out/F.h" ex_new (on_disk ex_u ex_old))
-  = [bs [111;117;116;47;70;46;104;10]; bs [123;123;123;85;83;69;82;95;88;10]; bs [99;10;10]; bs [123;123;123;85;83;69;82;95;88;10];
+  = [bs [70;46;104;10]; bs [123;123;123;85;83;69;82;95;88;10]; bs [99;10;10]; bs [123;123;123;85;83;69;82;95;88;10];
      (lost_sep ++ nl_str)%string].
 Proof. vm_compute. reflexivity. Qed.
 Print Assumptions C03_lost_nonvacuous.
